@@ -148,6 +148,9 @@ func checkLZContract(c *LZCase, res *WResult) *sim.Violation {
 
 func runLZCase(c *LZCase, x *sim.Ctx, foreign bool) *sim.Violation {
 	res := runWriter(&c.W, x)
+	if refusedWild(&c.W, res, x) {
+		return nil
+	}
 	probeWCase(&c.W, res, x)
 	x.Shape("size:" + c.SizeMode)
 	if c.SizeMode != "" {
@@ -250,6 +253,9 @@ func init() {
 			"non-trivial = non-empty payload or an explicit-size mode; distinct = distinct scenario digests",
 		Gen: func(r *sim.Rng, tier string, idx int) *LZCase {
 			c := genLZWCase(r, tier, false, true)
+			if !isVeryFarCase(tier, idx) && (c.SizeMode == "" || c.SizeMode == "exact") {
+				wildConfig(r, &c.W)
+			}
 			if isVeryFarCase(tier, idx) {
 				pl, dc := veryFarPayload(r, idx)
 				c.SizeMode = ""
